@@ -771,8 +771,14 @@ struct elements_iterator_t : boost::multi::random_accessable<elements_iterator_t
 	template<typename, class> friend struct elements_iterator_t;
 	template<typename, class> friend struct elements_range_t;
 
+	// the flat position is mapped to a zero-based index tuple: the layout is kept with all index bases reset to zero (base_ already designates the first element)
+	static constexpr auto zero_based_(layout_type lyt) -> layout_type {
+		std::apply([&lyt](auto... zeros) { lyt.reindex(zeros...); }, indices_type{});
+		return lyt;
+	}
+
 	constexpr elements_iterator_t(pointer base, layout_type const& lyt, difference_type n)
-	: base_{base}, l_{lyt}, n_{n}, xs_{l_.extensions()}, ns_{(xs_.num_elements() == 0)?indices_type{}:xs_.from_linear(n)} {}
+	: base_{base}, l_{zero_based_(lyt)}, n_{n}, xs_{l_.extensions()}, ns_{(xs_.num_elements() == 0)?indices_type{}:xs_.from_linear(n)} {}
 
  public:
 	elements_iterator_t() = default;
@@ -912,7 +918,7 @@ struct elements_range_t {
 
 	constexpr auto at_aux_(difference_type n) const -> reference {
 		BOOST_MULTI_ASSERT( ! is_empty() );
-		return base_[std::apply(l_, l_.extensions().from_linear(n))];
+		return *(begin_aux_() + n);
 	}
 
 	#if defined(__clang__)
